@@ -304,7 +304,18 @@ impl TypeckResultsBuilder {
 
     pub fn push_coercion(&mut self, expr: hir::ExprId, coercion: Coercion) {
         if let Some(slot) = self.results.coercions.get_mut(expr.idx as usize) {
-            slot.push(coercion);
+            let Coercion::ToDyn { trait_name, ty, .. } = &coercion;
+            let already_coerced = slot.iter().any(|existing| {
+                let Coercion::ToDyn {
+                    trait_name: existing_trait,
+                    ty: existing_ty,
+                    ..
+                } = existing;
+                existing_trait == trait_name && existing_ty == ty
+            });
+            if !already_coerced {
+                slot.push(coercion);
+            }
         }
     }
 
